@@ -173,12 +173,14 @@ def run_unit(unit: Unit, forced: Optional[int] = None) -> UnitResult:
                 canary_done = True
             interp = Interp(ctx, fn, calls=_Recording(st.calls, used), consts=st.consts, loops=st.loops, cms=_Recording(st.cms, used), hooks=st.hooks, symcall=st.symcall, drop_calls=st.drop_calls, impure=impure)
             env = Env(st.env)
+            helpers = Env()  # module-level helpers see each other (and themselves: recursion)
             for nm, tgt in st.inline.items():
                 m2, q2 = tgt.split(":")
                 loc2 = find_function(m2, q2)
                 if loc2 is None:
                     raise Unsupported(f"inlined helper {tgt} not found")
-                env.set(nm, Closure(loc2[0], Env(), nm))
+                helpers.set(nm, Closure(loc2[0], helpers, nm))
+                env.set(nm, helpers.lookup(nm))
             try:
                 interp.exec_block(fn.body, env)
                 result = None
